@@ -655,7 +655,20 @@ private:
         std::ostringstream oss;
         oss << "STATUS:" << (success ? "OK" : "ERROR") << "\n";
         for (const auto& [key, value] : fields) {
-            oss << key << ':' << value << "\n";
+            oss << key << ':';
+            // A value may span several lines (ENTRIES, ADVERTISE_ENDPOINTS, ...). Every line after the
+            // first is sent as a continuation line starting with one space, so that an empty line
+            // inside or at the end of a value cannot be mistaken for the end of the header block.
+            for (const char ch : value) {
+                if (ch == '\r') {
+                    continue;
+                }
+                oss << ch;
+                if (ch == '\n') {
+                    oss << ' ';
+                }
+            }
+            oss << "\n";
         }
         oss << "\n";
         const auto response = oss.str();
